@@ -69,6 +69,7 @@ namespace irx {
     std::vector<Obj> snap_objs; std::vector<Frame> snap_stack; size_t snap_terms = 0; std::vector<Input> snap_inputs; std::vector<z3::expr> snap_pc; std::vector<HostStream> snap_hs; long snap_insts = 0;
     std::set<std::string> unknown_externals;
     long emitted = 0;
+    long path_unknowns = 0; // solver 'unknown' answers on the current path (=> the path may be infeasible)
     std::map<std::string, int> emitted_by_msg;
 
     Engine(Module & m) : M(m), DL(m.getDataLayout()) {}
@@ -170,7 +171,7 @@ namespace irx {
         if (r == z3::sat) { try { z3::model mm = s.get_model(); if (out) *out = mm; last_model.reset(new z3::model(mm)); model_pc_n = pc.size(); } catch (z3::exception &) { last_model.reset(); } }
       }
       st.solver_s += std::chrono::duration<double>(clk::now() - t0).count();
-      if (r == z3::unknown) st.unknown++;
+      if (r == z3::unknown) { st.unknown++; path_unknowns++; }
       if (getenv("IRX_DUMPQ")) { std::cerr << "QUERY path " << st.paths << " result=" << r << " hard=" << pc_hard << " inc_n=" << inc_n << " pc=" << pc.size() << " extra=" << extra.to_string().substr(0, 200) << "\n"; }
       return r;
     }
@@ -254,7 +255,11 @@ namespace irx {
       z3::model m(ctx);
       z3::check_result r = check(ctx.bool_val(true), &m);
       if (r != z3::sat && getenv("IRX_DEBUG")) { std::cerr << "PC not sat (" << r << ") at event " << what << "\n"; for (auto & a : pc) std::cerr << "  " << a << "\n"; z3::solver ds(ctx); for (auto & a : pc) ds.add(a); FILE * f = fopen("/tmp/irx_pc.smt2", "w"); if (f) { fputs(ds.to_smt2().c_str(), f); fclose(f); } }
-      if (r == z3::unsat) throw Fatal{"engine inconsistency: event '" + what + "' on a path whose condition is unsatisfiable"};
+      if (r == z3::unsat) {
+        // an infeasible path can only have been entered through an 'unknown' branch query (explored on both sides)
+        if (path_unknowns > 0) { st.infeasible_discarded++; throw PathEnd{"infeasible"}; }
+        throw Fatal{"engine inconsistency: event '" + what + "' on a path whose condition is unsatisfiable"};
+      }
       emit(type, what, r == z3::sat ? &m : nullptr);
     }
 
@@ -272,12 +277,12 @@ namespace irx {
     Obj & deref(const Val & p, uint64_t n, const char * what)
     {
       if (p.k != Val::PTR) throw Fatal{std::string("dereference of non-pointer in ") + where()};
-      if (p.obj <= 0 || p.obj >= (int)objs.size()) { st.mem_errors++; report_path_event("memory_error", std::string(what) + ": null/invalid pointer dereference"); throw PathEnd{"memerr"}; }
+      if (p.obj <= 0 || p.obj >= (int)objs.size()) { report_path_event("memory_error", std::string(what) + ": null/invalid pointer dereference"); st.mem_errors++; throw PathEnd{"memerr"}; }
       Obj & o = objs[p.obj];
-      if (o.freed) { st.mem_errors++; report_path_event("memory_error", std::string(what) + ": use after free of " + o.name); throw PathEnd{"memerr"}; }
+      if (o.freed) { report_path_event("memory_error", std::string(what) + ": use after free of " + o.name); st.mem_errors++; throw PathEnd{"memerr"}; }
       if (p.off < 0 || (uint64_t)p.off + n > o.bytes.size()) {
-        st.mem_errors++;
         report_path_event("memory_error", std::string(what) + ": out of bounds access, offset " + std::to_string(p.off) + " size " + std::to_string(n) + " in object '" + o.name + "' of " + std::to_string(o.bytes.size()) + " bytes");
+        st.mem_errors++;
         throw PathEnd{"memerr"};
       }
       return o;
